@@ -750,6 +750,44 @@ func init() {
 	reg("math/rand.New", func(m *Machine, fn *ssa.Function, a []Value) Value { return &Ext{Kind: "rand"} })
 }
 
+func init() {
+	// assembly-backed helpers of internal/bytealg (concrete arguments only)
+	reg("internal/bytealg.IndexByteString", func(m *Machine, fn *ssa.Function, a []Value) Value {
+		return int64(strings.IndexByte(m.mustStr(a[0], "IndexByteString"), byte(m.toInt(a[1]))))
+	})
+	reg("internal/bytealg.CountString", func(m *Machine, fn *ssa.Function, a []Value) Value {
+		return int64(strings.Count(m.mustStr(a[0], "CountString"), string([]byte{byte(m.toInt(a[1]))})))
+	})
+	reg("internal/bytealg.IndexString", func(m *Machine, fn *ssa.Function, a []Value) Value {
+		return int64(strings.Index(m.mustStr(a[0], "IndexString"), m.mustStr(a[1], "IndexString")))
+	})
+	reg("internal/bytealg.LastIndexByteString", func(m *Machine, fn *ssa.Function, a []Value) Value {
+		return int64(strings.LastIndexByte(m.mustStr(a[0], "LastIndexByteString"), byte(m.toInt(a[1]))))
+	})
+	reg("strings.IndexByte", func(m *Machine, fn *ssa.Function, a []Value) Value {
+		if s, ok := m.str(a[0]); ok {
+			if b, ok := a[1].(int64); ok {
+				return int64(strings.IndexByte(s, byte(b)))
+			}
+		}
+		b, ok := a[1].(int64)
+		if !ok {
+			m.unsupported("strings.IndexByte with symbolic byte")
+		}
+		return m.C.Sext(m.C.IndexOf(m.strTerm(a[0]), string([]byte{byte(b)})), 32)
+	})
+	reg("strings.LastIndexByte", func(m *Machine, fn *ssa.Function, a []Value) Value {
+		b, ok := a[1].(int64)
+		if !ok {
+			m.unsupported("strings.LastIndexByte with symbolic byte")
+		}
+		if s, ok := m.str(a[0]); ok {
+			return int64(strings.LastIndexByte(s, byte(b)))
+		}
+		return m.C.Sext(m.C.LastIndexOf(m.strTerm(a[0]), string([]byte{byte(b)})), 32)
+	})
+}
+
 // sprintfLoose formats for messages only (never fails on symbolic arguments).
 func (m *Machine) sprintfLoose(format string, args []Value) Value {
 	natives := make([]interface{}, len(args))
